@@ -21,7 +21,7 @@ REPO = "/repo"
 PKG = "processscheduler"
 PROPS = {
     "task.py": ["C01", "C02", "C05", "C06", "C18", "C11"],
-    "resource.py": ["C02", "C18", "C04"],
+    "resource.py": ["C02", "C18", "C04", "C08"],
     "constraint.py": ["C10", "C03", "C18"],
     "task_constraint.py": ["C03", "C05", "C06", "C18", "C09"],
     "resource_constraint.py": ["C04", "C05", "C18"],
@@ -29,10 +29,10 @@ PROPS = {
     "indicator.py": ["C08", "C07"],
     "objective.py": ["C08", "C07"],
     "function.py": ["C08", "C16"],
-    "indicator_constraint.py": ["C08", "C10", "C18"],
+    "indicator_constraint.py": ["C08", "C10", "C18", "C05"],
     "buffer.py": ["C09", "C18"],
     "util.py": ["C03", "C04", "C08", "C09"],
-    "problem.py": ["C18", "C14", "C01"],
+    "problem.py": ["C18", "C14", "C01", "C05"],
     "solver.py": ["C01", "C02", "C07", "C09", "C11", "C12", "C13", "C15", "C19", "C16", "C10", "C06"],
     "solution.py": ["C16", "C11", "C17"],
     "excel_io.py": ["C16"],
